@@ -84,7 +84,7 @@ def related(rnd, shape, mode):
         # inner circle, possibly internally tangent
         r2 = r * rnd.uniform(0.05, 1.0)
         a = rnd.uniform(0, 2 * math.pi)
-        dist = (r - r2) * rnd.choice([0, 0.5, 1, 1]) + rnd.choice([0, d])
+        dist = (r - r2) * rnd.choice([0, 0.5, 1, 1]) + rnd.choice([0, d, r * 3e-10, r * 8e-10, -r * 3e-10])
         if rnd.random() < 0.3:
             a = rnd.choice([0, math.pi / 2, math.pi, 3 * math.pi / 2])
         return ("circ", [cx + dist * math.cos(a), cy + dist * math.sin(a), r2])
@@ -351,7 +351,16 @@ class C17(Monitor):
                 continue
             stats["containment_reported"] += 1
             nontrivial = True
-            for (px, py) in probe_points(rnd, is_):
+            extra = []
+            if is_[0] == "circ" and os_[0] == "circ" and all(math.isfinite(float(q)) for q in list(is_[1]) + list(os_[1])):
+                # the point of the inner disc that is farthest from the outer centre decides tangent and nearly tangent pairs
+                dx, dy = float(is_[1][0]) - float(os_[1][0]), float(is_[1][1]) - float(os_[1][1])
+                dist = math.hypot(dx, dy)
+                if dist > 0 and float(is_[1][2]) >= 0:
+                    for scale in (1.0, 1 - 2.0 ** -40):
+                        extra.append((float(is_[1][0]) + float(is_[1][2]) * scale * dx / dist,
+                                      float(is_[1][1]) + float(is_[1][2]) * scale * dy / dist))
+            for (px, py) in extra + probe_points(rnd, is_):
                 # only points that are exactly inside the inner region count
                 if is_[0] == "rect":
                     p = is_[1]
